@@ -236,6 +236,12 @@ func (r *multiRunner) Step(line string) []string {
 			return obs
 		})}
 
+	case "gram":
+		if m3uCheck(string(mustUnhex(ws[1])), m3uMultivariant) == nil {
+			return []string{"1"}
+		}
+		return []string{"0"}
+
 	case "pl":
 		return []string{r.guarded("pl", func() string {
 			pl, err := playlist.Unmarshal(mustUnhex(ws[1]))
